@@ -45,8 +45,9 @@ import (
 //     argL   H1 + `proxy /` without an upstream (setup error in a directive that runs AFTER `on`)
 //     tlsM   tls with missing certificate files    imp   import of a missing file
 //     logE   H1 + `log` into a directory that does not exist (the OnStartup callback fails)
+//     mux    a TLS site (self-signed) and a plain-HTTP site on the same port p1: MakeServers refuses to build the server
 //     busy3  one site on p3 (port in use)          leak13  sites on p1 and p3     leak123  sites on p1, p2, p3
-//     <k>.h<N>  for k in H1 argE argL tlsM logE busy3 leak13 leak123: the same configuration with N (0..9) `on` directives,
+//     <k>.h<N>  for k in H1 argE argL tlsM logE mux busy3 leak13 leak123: the same configuration with N (0..9) `on` directives,
 //            dealt out to its sites in turn (events shutdown / certrenew, which never fire here); the plain spelling
 //            stands for N = 1 (busy3, leak123: 0)
 //     ty-<w> A1 + a mistyped directive <w> (proxi basicaut rewrit gzi loggg tlss redri zzz): rejected by the parser
@@ -195,7 +196,7 @@ func c08FreePort() int { return c08Ports.reserve(false) }
 
 // kinds whose number of `on` directives can be chosen with the suffix .h<N> (N one decimal digit), and the number
 // the plain spelling stands for
-var c08HookDefault = map[string]int{"H1": 1, "argE": 1, "argL": 1, "tlsM": 1, "logE": 1, "busy3": 0, "leak13": 1, "leak123": 0}
+var c08HookDefault = map[string]int{"H1": 1, "argE": 1, "argL": 1, "tlsM": 1, "logE": 1, "mux": 1, "busy3": 0, "leak13": 1, "leak123": 0}
 
 // c08SplitKind splits <base>.h<N> into base and N; a kind without the suffix registers its default number of hooks
 func c08SplitKind(kind string) (string, int, bool) {
@@ -288,6 +289,19 @@ func c08Config(kind string, p [4]int) (string, bool) {
 		return site(1, "A", "import /nonexistent/verif/snippet"), true
 	case "logE":
 		return site(1, "H", hooks(0, 1, "log /nonexistent/verif/dir/access.log")...), true
+	case "mux":
+		// MakeServers fails: a TLS site and a plain-HTTP site cannot share one listener
+		var b strings.Builder
+		fmt.Fprintf(&b, "a.test:%d {\n root %s\n tls self_signed\n", p[1], filepath.Join(c08.dir, "A"))
+		for _, e := range hooks(0, 2) {
+			b.WriteString(" " + e + "\n")
+		}
+		fmt.Fprintf(&b, "}\nhttp://b.test:%d {\n root %s\n", p[1], filepath.Join(c08.dir, "B"))
+		for _, e := range hooks(1, 2) {
+			b.WriteString(" " + e + "\n")
+		}
+		b.WriteString("}\n")
+		return b.String(), true
 	case "busy3":
 		return site(3, "A", hooks(0, 1)...), true
 	case "leak13":
@@ -629,14 +643,18 @@ func c08Gen(g *hx.Gen) {
 		alpha = append(alpha, "L:ty-"+w)
 	}
 	alpha = append(alpha, "V:H1", "V:argL", "V:syn", "V:ty-proxi", "V:ty-basicaut", "V:Pm1", "V:Pm3", "X")
-	// failing configurations that register SEVERAL hooks, and the API-level reload
-	alpha = append(alpha, "L:argL.h3", "R:A1", "R:logE.h2", "R:argL.h3")
+	// failing configurations that register SEVERAL hooks, and the API-level reload: in the quick tier they are crossed
+	// with the core of the alphabet (below), in the thorough tier with all of it
+	several := []string{"L:argL.h3", "R:A1", "R:logE.h2", "R:argL.h3", "R:mux.h2"}
+	if g.Thorough() {
+		alpha = append(alpha, several[:3]...)
+	}
 	maxLen := 2
 	if g.Thorough() {
 		maxLen = 3
 	}
 	core := []string{"L:A1", "L:B12", "L:H1", "L:O1", "L:Pa1", "L:Pm1", "L:Pn1", "L:syn", "L:argL", "L:logE", "L:leak13",
-		"L:ty-proxi", "V:H1", "V:Pm1", "X", "L:argL.h3", "R:logE.h2"}
+		"L:ty-proxi", "V:H1", "V:Pm1", "X", "R:logE.h2"}
 	// the property's shape: any attempts, then a valid configuration — a plain one and an ORDER-SENSITIVE one, whose
 	// behaviour must be that of a fresh process whatever was attempted before
 	finals0 := []string{"L:B12", "L:O1"}
@@ -670,10 +688,21 @@ func c08Gen(g *hx.Gen) {
 		}
 	}
 	rec(nil, maxLen)
+	if !g.Thorough() {
+		for i, n := range several {
+			for j, a := range core {
+				g.Case(a, n, finals0[(i+j)%2])
+				g.Case(n, a, finals0[(i+j+1)%2])
+			}
+			for j, m := range several {
+				g.Case(n, m, finals0[(i+j)%2])
+			}
+		}
+	}
 	// the number of hooks a FAILING configuration registers, at every stage a failure can occur at after `on` has run
 	// (and at one before it), through every way of loading, in a process whose registry is empty, holds the hooks of a
 	// running instance, or holds hooks of an earlier validation; then a valid load
-	stages := []string{"argE", "argL", "tlsM", "logE", "busy3", "leak13", "leak123"}
+	stages := []string{"argE", "argL", "tlsM", "logE", "mux", "busy3", "leak13", "leak123"}
 	counts := []int{0, 2, 3, 5}
 	contexts := [][]string{{}, {"L:A1"}, {"L:H1.h2"}, {"V:H1.h3"}, {"L:HH12", "X"}}
 	if g.Thorough() {
@@ -700,7 +729,7 @@ func c08Gen(g *hx.Gen) {
 		N = 6000
 	}
 	valid := []string{"A1", "B12", "C2", "H1", "HH12", "O1", "OB12", "Pa1", "Pb1", "Qa1"}
-	hookable := []string{"H1", "argE", "argL", "tlsM", "logE", "busy3", "leak13", "leak123"}
+	hookable := []string{"H1", "argE", "argL", "tlsM", "logE", "mux", "busy3", "leak13", "leak123"}
 	kind := func() string {
 		if g.Rng.Intn(4) == 0 {
 			return fmt.Sprintf("%s.h%d", hx.Pick(g.Rng, hookable), g.Rng.Intn(10))
